@@ -93,7 +93,7 @@ def run(ctx):
                 run_case(ctx, {"spec": [["r", b], ["", a], ["l", a]]})
                 ctx.count("adjacent_pairs")
     rng = ctx.rng
-    for _ in range(ctx.share(3000 if ctx.quick else 300000)):
+    for _ in range(ctx.share(3000 if ctx.quick else 1000000)):
         spec = obs.rand_spec(rng, maxruns=5, maxlen=4, alphabet=ALPHABET)
         run_case(ctx, {"spec": spec})
         ctx.count("random_specs")
